@@ -12,6 +12,7 @@ import (
 	"regexp"
 	"strconv"
 	"strings"
+	"sync"
 	"time"
 
 	f1log "github.com/form3tech-oss/f1/v2/internal/log"
@@ -143,9 +144,17 @@ func init() {
 				c.TimeoutMS = 60000
 				cs = append(cs, c)
 			}
+			// progress lines and summaries asked for by an observer while the result is being refreshed
+			for i := 0; i < map[string]int{"quick": 4, "thorough": 24}[tier]; i++ {
+				c := core.MkCase("C19", "observer", i, seed, c19Params{N: 40000})
+				c.Race = i%2 == 1
+				c.Procs = 16
+				c.TimeoutMS = 60000
+				cs = append(cs, c)
+			}
 			return cs
 		},
-		Kinds:  map[string]core.RunFunc{"gen": c19Gen, "real": c19Real, "runsummary": c19RunSummary},
+		Kinds:  map[string]core.RunFunc{"gen": c19Gen, "real": c19Real, "runsummary": c19RunSummary, "observer": c19Observer},
 		Floors: map[string]int64{"renders": 20000, "coloured_renders": 5000, "percentages_checked": 5000},
 	})
 }
@@ -727,4 +736,73 @@ func firstN(s string, n int) string {
 		return s[:n]
 	}
 	return s
+}
+
+// c19Observer: one goroutine records outcomes in triples (one passed, one failed, one dropped) and refreshes the result
+// after every triple, as the run's progress tick and final totals do; observers ask the same result for progress lines
+// meanwhile. Every refresh leaves the three counts equal, so every line an observer gets - structured or
+// rendered - must state three equal counts: anything else mixes two refreshes and states numbers no result ever held.
+func c19Observer(c *core.Case, o *core.Outcome) {
+	var p c19Params
+	c.Params(&p)
+	n := p.N
+	if c.Race {
+		n /= 8
+	}
+	stats := &progress.Stats{}
+	res := run.NewResult(options.RunOptions{Scenario: "s", IgnoreDropped: true, MaxFailures: 1 << 60}, views.New(), stats)
+	res.RecordStarted()
+	var stop atomic.Bool
+	var wg sync.WaitGroup
+	var torn atomic.Value
+	var lines atomic.Int64
+	var distinct sync.Map
+	for g := 0; g < 4; g++ {
+		wg.Add(1)
+		go func() {
+			defer wg.Done()
+			h := &mapHandler{}
+			lg := slog.New(h)
+			for !stop.Load() {
+				// (progress lines only: Summary() takes the result's read lock twice, nested, and is made for use after
+				// the refreshing has stopped - with a refresh queued between the two it would wait for ever)
+				what := "progress line"
+				res.Progress().Log(lg)
+				su, fa, dr := h.attrs["iteration_stats.successful"], h.attrs["iteration_stats.failed"], h.attrs["iteration_stats.dropped"]
+				lines.Add(1)
+				distinct.Store(su, true)
+				if su != fa || fa != dr {
+					torn.CompareAndSwap(nil, fmt.Sprintf("a %s obtained while the result was being refreshed states successful=%s failed=%s dropped=%s", what, su, fa, dr))
+					return
+				}
+			}
+		}()
+	}
+	for i := 0; i < n && torn.Load() == nil; i++ {
+		stats.Record(metrics.SuccessResult, int64(1+i%1000))
+		stats.Record(metrics.FailedResult, int64(1+i%777))
+		stats.Record(metrics.DroppedResult, 0)
+		if i%3 == 2 {
+			res.GetTotals()
+		} else {
+			res.SnapshotProgress(time.Second)
+		}
+	}
+	stop.Store(true)
+	wg.Wait()
+	o.Events = lines.Load() + int64(3*n)
+	nd := 0
+	distinct.Range(func(_, _ any) bool { nd++; return true })
+	o.AddObs("observer_lines", lines.Load())
+	o.AddObs("observer_distinct_refreshes_seen", int64(nd))
+	if t := torn.Load(); t != nil {
+		o.Violate("observer-torn", "%s; every refresh of this result left the three counts equal (%d refreshes, %d lines read)", t, n, lines.Load())
+		return
+	}
+	if nd < 20 {
+		o.Inconc("the observers saw only %d distinct refreshes", nd)
+		return
+	}
+	o.Sig("observer:race=%v", c.Race)
+	o.Sample = map[string]any{"refreshes": n, "lines_read": lines.Load(), "distinct_refreshes_seen": nd}
 }
